@@ -92,7 +92,7 @@ MaxTimeLock == 34560
    the patches proposed in findings/params.md for ids listed — edit this one
    line when a fix: commit lands (strict mode reports the difference as drift
    until then). *)
-Fixed == {}
+Fixed == {"F14", "F18", "F19", "F21"}
 
 -----------------------------------------------------------------------------
 (* Params.Validate per module *)
